@@ -242,14 +242,19 @@ func c23GenSigners(rng *rand.Rand, w *c23World, ts, now time.Time, adequate, tho
 			s.kind = "now-boundary"
 			s.expiration = now.Add(time.Duration(rng.Int64N(int64(40*time.Millisecond))) - 10*time.Millisecond)
 		}
-		// quick tier: stay away from the "expires now" boundary
+		// quick tier: stay away from the "expires now" boundary. (All random
+		// numbers are drawn unconditionally so that the wall clock never
+		// changes how much of the PRNG stream a case consumes.)
+		shift := time.Duration(rng.IntN(1000)) * time.Millisecond
 		if !thorough || s.kind != "now-boundary" {
 			if d := s.expiration.Sub(now); d > -2*time.Second && d < 5*time.Second {
-				s.expiration = now.Add(5*time.Second + time.Duration(rng.IntN(1000))*time.Millisecond)
+				s.expiration = now.Add(5*time.Second + shift)
 			}
 		}
 		out = append(out, s)
 	}
+	fixIdx, fixNB, fixKind := rng.IntN(len(out)), rng.IntN(3600), rng.IntN(3)
+	fixExtra := time.Duration(rng.Int64N(int64(24 * time.Hour)))
 	if adequate {
 		ok := false
 		for _, s := range out {
@@ -258,22 +263,22 @@ func c23GenSigners(rng *rand.Rand, w *c23World, ts, now time.Time, adequate, tho
 			}
 		}
 		if !ok {
-			s := &out[rng.IntN(len(out))]
-			s.notBefore = ts.Add(-time.Duration(rng.IntN(3600)) * time.Second)
+			s := &out[fixIdx]
+			s.notBefore = ts.Add(-time.Duration(fixNB) * time.Second)
 			lo := ts.Add(c23Unit)
 			if m := now.Add(5 * time.Second); m.After(lo) {
 				lo = m
 			}
-			switch rng.IntN(3) {
+			switch fixKind {
 			case 0:
 				s.kind = "adequate-min"
 				s.expiration = lo
 			case 1:
 				s.kind = "adequate-mid"
-				s.expiration = lo.Add(time.Duration(rng.Int64N(int64(24 * time.Hour))))
+				s.expiration = lo.Add(fixExtra)
 			default:
 				s.kind = "adequate-far"
-				s.expiration = lo.Add(24*time.Hour + time.Duration(rng.Int64N(int64(24*time.Hour))))
+				s.expiration = lo.Add(24*time.Hour + fixExtra)
 			}
 		}
 	}
